@@ -247,7 +247,13 @@ impl Mon {
             if let (Some(md5), true) = (md5.as_ref(), check) {
                 use base64::Engine;
                 let got = base64::engine::general_purpose::STANDARD.encode(md5::compute(&written).0);
-                if &got != md5 {
+                if &got != md5 && written.is_empty() && tl == Some(0) {
+                    // known finding D33: a zero-length object is completed without MD5 comparison
+                    self.fail(
+                        "C09:complete-md5-unchecked-empty",
+                        format!("writer {}.{}: empty object completed although the announced Content-MD5 {} is not the digest of the empty string", toi, idx, md5),
+                    );
+                } else if &got != md5 {
                     self.fail(
                         "C09:complete-md5-mismatch",
                         format!("writer {}.{}: complete although MD5 of the written bytes {} != announced {}", toi, idx, got, md5),
